@@ -649,6 +649,28 @@ class UnitsExecutor(Executor):
     def alist_method(self, st, obj, name, args, kwargs, node):
         o = st.obj(obj.ref)
         sq: VSeq = o.data
+        if name == "append" and sq.ekind == "unit" and isinstance(args[0], VRef) and st.obj(args[0].ref).kind == "obj":
+            # a list of units: the appended unit object is stored as its observation (number, text), obtained by
+            # running the real accessor methods of the unit class
+            out = []
+            for (s2, num, text) in self.project_unit(st, args[0], node):
+                o2 = s2.obj(obj.ref)
+                sq2 = o2.data
+                n0, old = sq2.length, sq2.elem
+                v = AUnit(num, text)
+                new = VSeq(z3.simplify(n0 + 1), lambda k, n0=n0, old=old, v=v: _ite_val(k == n0, v, old(k)), "unit")
+                self.note_store(s2, obj.ref, node)
+                s2.heap[obj.ref] = HeapObj("alist", new, None, o2.fresh)
+                out.append((s2, NONE))
+            return out
+        if name == "pop" and not args:
+            n0 = sq.length
+            st = self.fork_raise(st, n0 <= 0, "IndexError")
+            if st is None:
+                return []
+            self.note_store(st, obj.ref, node)
+            st.heap[obj.ref] = HeapObj("alist", VSeq(z3.simplify(n0 - 1), sq.elem, sq.ekind), None, o.fresh)
+            return [(st, sq.elem(z3.simplify(n0 - 1)))]
         if name == "append":
             v = self.freeze(st, args[0])
             ek = sq.ekind
